@@ -136,6 +136,56 @@ def gen_case(rng, maxn=24):
     if rng.random() < 0.35:
         case["ambient"] = gen_ambient(rng)
     add_container(rng, case)
+    add_scenario(rng, case)
+    return case
+
+
+SPELL = {"balanced": ["balanced", "Balanced", "BALANCED"], "fast": ["fast", "Fast", "FAST"], "random": ["random", "Random", "RANDOM"]}
+SCALES = [-1000, -600, -300, -100, -24, 24, 100, 130, 300, 480, 600, 990]
+
+
+def add_scenario(rng, case):
+    """Call forms, spellings, numeric representations, repeated / failing calls, coordinate scale (hardening classes 3-7, 9, 11)."""
+    case["call"] = rng.choice(["pos", "pos", "kw", "default"])
+    if case["call"] == "default" and rng.random() < 0.5:       # make the defaults themselves occur
+        case["mls"] = 10 if rng.random() < 0.5 else case["mls"]
+        case["strategy"] = "fast" if rng.random() < 0.5 else case["strategy"]
+        if case["knn"]:
+            case["knn"][0][1] = 1
+    if rng.random() < 0.3:
+        case["strategy_spelling"] = rng.choice(SPELL[case["strategy"]])
+    case["numrep"] = rng.choice(["py", "py", "np64", "np32"])
+    case["qform"] = rng.choice(["array", "array", "list", "tuple", "intarray"])
+    if rng.random() < 0.4:
+        case["repeat"] = True
+    if rng.random() < 0.2:
+        case["bad_call_first"] = True
+    if rng.random() < 0.25:
+        case["scale_exp"] = rng.choice(SCALES)
+        if abs(case["scale_exp"]) > 480:
+            # squared distances overflow / underflow in binary64: only construction, partition and boxes are examined
+            case["knn"], case["rad"] = [], []
+    if case["pts"] and rng.random() < 0.2:
+        # index 0 plays the key role: the query sits on point 0 (nearest neighbour 0, radius 0 hits it)
+        Q0 = [2 * c for c in case["pts"][0]]
+        if case["knn"]:
+            case["knn"][-1] = [Q0, 1]
+        if case["rad"]:
+            case["rad"][-1] = [Q0, 0]
+
+
+def gen_big_case(rng, n):
+    """More than 256 points (indices beyond the small-integer cache), dimension 1-2, a moderate leaf size."""
+    d = rng.choice([1, 2])
+    pts = [[rng.randint(-40, 40) for _ in range(d)] for _ in range(n)]
+    Q = [2 * c for c in pts[n - 1]]
+    case = {"dim": d, "pts": pts, "mls": rng.choice([6, 10]), "strategy": rng.choice(["balanced", "fast", "random"]),
+            "seed": rng.randint(0, 2 ** 31 - 1), "dtype": "float",
+            "knn": [[Q, 1], [[rng.randint(-90, 90) for _ in range(d)], rng.choice([3, n - 1, n, n + 1])]],
+            "rad": [[Q, 0], [[rng.randint(-90, 90) for _ in range(d)], rng.randint(0, 3000)]], "style": "more-than-256-points"}
+    add_container(rng, case)
+    add_scenario(rng, case)
+    case.pop("scale_exp", None)
     return case
 
 
@@ -191,7 +241,8 @@ def gen_float_case(rng):
         rad.append([Q, max(0, d2(rng.choice(pts), Q) + rng.choice([0, 0, -1, 1, rng.randint(-40, 40)]))])
     return {"dim": d, "pts": pts, "mls": rng.choice([1, 1, 2, 3]), "strategy": rng.choice(["balanced", "fast", "random"]),
             "seed": rng.randint(0, 2 ** 31 - 1), "dtype": "float", "knn": knn, "rad": rad, "style": "bigfloat", "float_only": True,
-            "container": rng.choice(["list", "float", "fortran", "view"])}
+            "container": rng.choice(["list", "float", "fortran", "view"]),
+            "scale_exp": rng.choice([0, 0, 0, -300, -100, 100, 130, 300, 400])}
 
 
 TOL_BITS = 46      # two squared distances closer than 2^-46 (relative) are not distinguished by the tolerant oracle
@@ -226,6 +277,20 @@ def exhaustive_cases():
 
 
 # ---------------------------------------------------------------------- independent oracle (the property restated)
+def bound(b):
+    """A box bound reported by the driver (doubled, divided by the case's scale) as an exact number / +-inf."""
+    from fractions import Fraction
+    if b == "inf":
+        return float("inf")
+    if b == "-inf":
+        return float("-inf")
+    if b == "nan":
+        return float("nan")
+    if isinstance(b, str) and b.startswith("F:"):
+        return Fraction(b[2:])
+    return b
+
+
 def oracle(case, obs):
     """None, or (class-key, message) for the first way the observation violates the C11 sentence."""
     pts, n, d = case["pts"], len(case["pts"]), case["dim"]
@@ -250,8 +315,9 @@ def oracle(case, obs):
             seen[i] = nid
             for a in range(d):
                 c = 2 * pts[i][a]
-                if (lo[a] != "-inf" and (lo[a] == "inf" or c < lo[a])) or (hi[a] != "inf" and (hi[a] == "-inf" or c > hi[a])):
-                    return ("leaf-box", "point %d %s lies outside the box of its leaf %d" % (i, pts[i], nid))
+                if not (bound(lo[a]) <= c <= bound(hi[a])):
+                    return ("leaf-box", "point %d %s lies outside the box of its leaf %d (bounds x2: %s .. %s on axis %d)"
+                            % (i, pts[i], nid, lo[a], hi[a], a))
     if len(seen) != n:
         return ("partition", "points %s are stored in no leaf" % sorted(set(range(n)) - set(seen))[:5])
     for (Q, k), ans in zip(case["knn"], obs["knn"]):
@@ -291,6 +357,10 @@ def oracle(case, obs):
         if sorted(ans) != want:
             return ("radius-set", "query_radius(%s/2, sqrt(%d)/2) returned %s, the points within the radius are %s"
                     % (Q, m, sorted(ans), want))
+    if obs.get("repeat_mismatch"):
+        return ("repeat-call-differs", "the same query issued twice on the same tree: " + obs["repeat_mismatch"])
+    if obs.get("query_point_modified_by"):
+        return ("query-point-modified", "the caller's query point was modified by %s" % obs["query_point_modified_by"])
     if obs.get("input_modified_by_build") or obs.get("input_modified_by_query"):
         return ("caller-array-modified", "the caller's point array was modified by %s"
                 % ("the constructor" if obs.get("input_modified_by_build") else "a query"))
@@ -323,6 +393,9 @@ def classify(case, kind):
                      "duplicates" if len(set(pts)) < len(pts) else "distinct",
                      "ambient-queues" if case.get("ambient") else "no-ambient",
                      "bigfloat" if case.get("float_only") else "small-int",
+                     "scale=2^%d" % case["scale_exp"] if case.get("scale_exp") else "unscaled",
+                     "call=%s/%s/%s%s%s" % (case.get("call", "pos"), case.get("numrep", "py"), case.get("qform", "array"),
+                                            "/repeated" if case.get("repeat") else "", "/after-failed-calls" if case.get("bad_call_first") else ""),
                      "container=" + str(case.get("container", "float")),
                      "caller-overwrites-array(%s)" % case["mutate"] if case.get("mutate") else "array-untouched"])
 
@@ -350,11 +423,12 @@ def shrink(case, key, budget=30.0):
             if cand_amb != cur["ambient"] and fails(cand):
                 cur = cand
                 break
-    if cur.get("mutate"):
-        cand = dict(cur)
-        cand.pop("mutate")
-        if fails(cand):
-            cur = cand
+    for fld in ("mutate", "scale_exp", "strategy_spelling", "repeat", "bad_call_first", "numrep", "qform", "call", "container"):
+        if fld in cur:
+            cand = dict(cur)
+            cand.pop(fld)
+            if fails(cand):
+                cur = cand
     # keep only one failing query
     for fld in ("knn", "rad"):
         for keep in ([], ) + tuple([x] for x in cur[fld]):
@@ -429,7 +503,13 @@ def case_term(case, obs):
 
 
 def encodable(obs):
-    return obs["status"] == "ok" and all(not (a and a[0] == "error") for a in obs["knn"] + obs["rad"])
+    if obs["status"] != "ok" or any(a and a[0] == "error" for a in obs["knn"] + obs["rad"]):
+        return False
+    nums = list(obs["pivots"]) + [x for row in obs.get("now", []) for x in row]
+    for nd in obs["nodes"]:
+        nums += ([nd[3]] if nd[0] == "N" else []) + [x for x in nd[-2] + nd[-1] if x not in ("inf", "-inf")]
+    # (decimal literals of hundreds of bits make coqc's parser the bottleneck; the model never produces such bounds)
+    return all(isinstance(x, int) and abs(x) < 2 ** 70 for x in nums)
 
 
 # ---------------------------------------------------------------------- the check
@@ -451,7 +531,7 @@ WITNESSES = [
 
 def run(ctx):
     quick = ctx.tier == "quick"
-    n_cases = 1500 if quick else 30000
+    n_cases = 1500 if quick else 24000
     ctx.rule = ("integer point sets of dimension 1-5, 0-24 points (thorough: up to 40), styles uniform / clustered / collinear / "
                 "axis-degenerate / duplicated / all-identical / majority-duplicate / grid; leaf sizes 1-4 (occasionally 6, 10); strategies balanced / "
                 "fast / random with seeded numpy RNG; per case 3 kNN queries (k in 1..n+2, query on / near / far from the data) "
@@ -460,7 +540,11 @@ def run(ctx):
                 "and must be left unchanged; the points are handed over as list / tuple / float ndarray / int ndarray / Fortran-ordered / "
                 "non-contiguous view, and in 40% of the ndarray cases the caller overwrites its array after construction and builds a "
                 "second tree from it before the first tree is queried (answers judged against the points at construction; the "
-                "caller's array must never be modified by build or query). Plus a rounding class (200 quick / 4000 thorough cases, oracle only): "
+                "caller's array must never be modified by build or query). Scenario dimensions drawn per case: arguments positional / keyword / omitted-at-default, strategy spelled in "
+                "other cases, k / max_leaf_size / r as python, numpy 64- and 32-bit numbers, query point as array / list / tuple / int "
+                "array, every query re-issued interleaved after the caller appended to the first answers, failing calls caught before the "
+                "queries, all coordinates scaled by 2^s (s in -1000..990, i.e. 1e-301..1e298; queries dropped when squares leave the "
+                "binary64 range), the query sitting on point 0, and 2 (thorough 8) cases with 257-300 points. Plus a rounding class (200 quick / 4000 thorough cases, oracle only): "
                 "coordinates 2^20..2^40 + (-3..3), queries far away, so that distinct true distances collide in binary64. Non-trivial = the build splits "
                 "at least once (n > leaf size); distinct = by canonical JSON of the case")
     ctx.assumptions += [
@@ -487,6 +571,8 @@ def run(ctx):
     maxn = 24 if quick else 40
     cases += [gen_case(ctx.rng, maxn) for _ in range(n_cases)]
     cases += [gen_float_case(ctx.rng) for _ in range(200 if quick else 4000)]
+    for _ in range(2 if quick else 8):       # spread over the shards: each is a heavy Coq term
+        cases.insert(ctx.rng.randrange(len(cases) + 1), gen_big_case(ctx.rng, ctx.rng.randint(257, 300)))
     if not quick:
         ex = exhaustive_cases()
         ctx.notes.append("thorough tier also enumerates %d cases exhaustively (all 1-D point sequences over {0,1,2} of length <= 5, "
@@ -496,6 +582,7 @@ def run(ctx):
     nsh = max(1, min(core.NCPU, len(cases) // 60))
     payloads = [{"cases": cases[i::nsh], "timeout": 2.0 if quick else 4.0} for i in range(nsh)]
     results = core.run_impl_parallel("vf.impl.c11_driver", payloads, timeout=1800)
+    ctx.log("implementation driver ran %d cases in %d shards" % (len(cases), nsh))
     obs = [None] * len(cases)
     for i, r in enumerate(results):
         for j, o in zip(range(i, len(cases), nsh), r["obs"]):
@@ -527,9 +614,19 @@ def run(ctx):
         if c.get("ambient"):
             ctx.count("cases with ambient PriorityQueue objects alive")
         ctx.count("container=" + str(o.get("container", c.get("container", "float"))))
+        ctx.count("call form=" + c.get("call", "pos"))
+        ctx.count("numeric representation=" + c.get("numrep", "py"))
+        ctx.count("query point form=" + c.get("qform", "array"))
+        if c.get("scale_exp"):
+            ctx.count("coordinates scaled by 2^%d" % c["scale_exp"])
+        for fld, txt in (("repeat", "queries repeated / interleaved"), ("bad_call_first", "failing calls caught first"),
+                         ("strategy_spelling", "strategy in another spelling")):
+            if c.get(fld):
+                ctx.count(txt)
         if c.get("mutate") and o.get("now") is not None and o["now"] != [[2 * x for x in p] for p in c["pts"]]:
             ctx.count("cases where the caller overwrote its array after construction (second tree built from it)")
-        ctx.case_seen([c["dim"], c["pts"], c["mls"], c["strategy"], c["seed"], c["knn"], c["rad"], c.get("ambient"), c.get("container"), c.get("mutate")], nontrivial=n > c["mls"],
+        ctx.case_seen([c["dim"], c["pts"], c["mls"], c["strategy"], c["seed"], c["knn"], c["rad"], c.get("ambient"), c.get("container"), c.get("mutate"),
+                       c.get("scale_exp"), c.get("call"), c.get("numrep"), c.get("qform"), c.get("repeat"), c.get("bad_call_first")], nontrivial=n > c["mls"],
                       sample={"case": {k: c[k] for k in ("dim", "pts", "mls", "strategy", "knn", "rad", "ambient", "container", "mutate") if k in c}, "observed": o}
                       if 3 < n < 9 else None)
         m = oracle(c, o)
@@ -550,6 +647,7 @@ def run(ctx):
                    "these cases are outside the exact-arithmetic model and are not sent to Coq")
     ctx.extra["rounding_class"] = {"cases": n_float_run, "answers_optimal_only_up_to_rounding": n_ties, "tolerance_bits": TOL_BITS}
 
+    ctx.log("oracle done: %d failing cases" % len(fails))
     bad = []
     enc_idx = [i for i, o in enumerate(obs) if encodable(o) and not cases[i].get("float_only")]
     failing_idx = {i for i, _ in fails}
@@ -569,6 +667,7 @@ def run(ctx):
     reported = set()
     import time
     shrink_deadline = time.time() + 45.0      # total time allowed for shrinking, over all failure classes
+    ctx.log("correspondence done: %d disagreeing cases" % len(bad))
     kinds_done = set()
     # unknown classes first (one violation per failing clause, the other classes of the same clause are listed in it)
     for key in unknown + sorted(k for k in classes if ctx.known(k)):
